@@ -209,7 +209,7 @@ def r2(ctx):
                 ctx.check("C15.R2", q.endswith("unquote_to_bytes") and isbytes, key(f, "implicit-utf8|" + q.split(".")[-1]), site(f, c),
                           "`%s` is given latin-1 *text*: urllib encodes str arguments as UTF-8 before decoding the escapes, so a raw byte 0xE9 in the path becomes the two bytes C3 A9 "
                           "(PATH_INFO '/caf\\xc3\\xa9' instead of '/caf\\xe9')" % norm(c), "given latin-1 bytes")
-    ctx.floor("C15.R2", "codec conversion sites", n, 6)
+    ctx.floor("C15.R2", "codec conversion sites", n, 4)
     fb = repo.func(UTIL + ".bytes_to_str")
     ctx.check("C15.R2", any(isinstance(c, ast.Call) and _names_latin1(c) for c in walk_own(fb.node)), key(fb, "latin1"), site(fb), "bytes_to_str does not decode as latin-1", "str(b, 'latin1')")
     fu = repo.func(UTIL + ".unquote_to_wsgi_str")
